@@ -16,8 +16,18 @@ MC_Shallow == {"FuelConverter.init40", "LocomotiveSimulation.init40", "Consist.i
 MC_Static == {"PowerTrace", "SpeedTrace", "TrainConfig", "TrainSimBuilder", "TrainSimBuilder.init", "TrainSimBuilder.nan",
               "PathTpc.finished", "Network", "EstTimeNet", "Location", "TimedLinkPath"}
 
+\* kinds of the medium configs (every medium x format at every position of a short schedule)
+MC_MediaDeep == {"Locomotive.conv", "Locomotive.bel", "Consist", "LocomotiveSimulation", "ConsistSimulation",
+                 "SetSpeedTrainSim", "SpeedLimitTrainSim", "PathTpc.unfinished"}
+MC_MediaShallow == {"PowerTrace", "TrainConfig", "TrainSimBuilder", "Network", "EstTimeNet", "Location", "TimedLinkPath",
+                    "LocomotiveSimulationVec"}
+\* kinds that have a "large" size class in the harness (documents above 1 MiB: long dense histories, a big network)
+MC_LargeDeep == {"SetSpeedTrainSim.long", "ConsistSimulation.long"}
+MC_LargeDeepAll == {"SetSpeedTrainSim.long", "ConsistSimulation.long", "SpeedLimitTrainSim.long", "LocomotiveSimulation.long"}
+MC_LargeShallow == {"Network"}
+
 Done == Len(hist) = DepthOf(kind)
 \* a schedule without any SaveLoad is the reference run itself: nothing to replay
-Emit == (Done /\ \E j \in 1..Len(hist) : hist[j] \in Formats)
-          => PrintT(<<"REPLAY", ToJson([kind |-> kind, sched |-> hist])>>)
+Emit == (Done /\ \E j \in 1..Len(hist) : hist[j][1] \in Formats)
+          => PrintT(<<"REPLAY", ToJson([kind |-> kind, size |-> size, sched |-> hist])>>)
 =============================================================================
